@@ -104,7 +104,7 @@ impl Prop for C02 {
         "C02"
     }
     fn rule(&self) -> String {
-        "spelling set S = one typeable name of each of the 84 proportional units, their k-/m- prefixed forms where the word has a single reading, all u*v and u/v over a 14-unit (thorough 26-unit) core, 24 hand-listed cancelling spellings, 16 spellings over different unit names that cancel completely or contribute/cancel/re-contribute a base dimension (m/ft, N*m/J, N*kg/J), 40 powered / prefixed-and-powered / three-factor / partly cancelling spellings (m^2 vs ha, cm^3 vs l, s^-1 vs Bq, kg*m^2/s^2 vs J, m^3/m, km*m) (thorough: plus every alias); all ordered pairs (a,b) of S x {`1 a + 1 b`, `3 a - 1 b`, `1 a to b`}; plus `2 + 1 q`, `1 q + 2`, `5 - 1 q`, `1 q - 5` for every q in S. Oracle: Ok iff the independent table gives both sides the same base dimensions; on Ok the SI value is the exact sum/difference/rescaling and a cast result is expressed in the target's unit; a plain number adopts the quantity's unit in both orders. Non-trivial = both sides have non-empty units; distinct = distinct query strings".into()
+        "spelling set S = one typeable name of each of the 84 proportional units, their k-/m- prefixed forms where the word has a single reading, all u*v and u/v over a 14-unit (thorough 26-unit) core, 24 hand-listed cancelling spellings, 16 spellings over different unit names that cancel completely or contribute/cancel/re-contribute a base dimension (m/ft, N*m/J, N*kg/J), 40 powered / prefixed-and-powered / three-factor / partly cancelling spellings (m^2 vs ha, cm^3 vs l, s^-1 vs Bq, kg*m^2/s^2 vs J, m^3/m, km*m) (thorough: plus every alias); all ordered pairs (a,b) of S x {`1 a + 1 b`, `3 a - 1 b`, `1 a to b`, `5 a + 0 b`, `0 a - 5 b`} and, over a 48-spelling core, computed zeros `5 a + (3 b - 3 b)`, `(2 a - 2 a) - 4 b`; plus `2 + 1 q`, `1 q + 2`, `5 - 1 q`, `1 q - 5` for every q in S. Oracle: Ok iff the independent table gives both sides the same base dimensions; on Ok the SI value is the exact sum/difference/rescaling and a cast result is expressed in the target's unit; a plain number adopts the quantity's unit in both orders. Non-trivial = both sides have non-empty units; distinct = distinct query strings".into()
     }
     fn assumptions(&self) -> Vec<String> {
         vec![
@@ -120,6 +120,16 @@ impl Prop for C02 {
                 sink(Case::with("add", format!("1 {a} + 1 {b}"), serde_json::json!({"a": a, "b": b})));
                 sink(Case::with("sub", format!("3 {a} - 1 {b}"), serde_json::json!({"a": a, "b": b})));
                 sink(Case::with("to", format!("1 {a} to {b}"), serde_json::json!({"a": a, "b": b})));
+                // a zero on either side changes nothing about commensurability
+                sink(Case::with("add", format!("5 {a} + 0 {b}"), serde_json::json!({"a": a, "b": b, "ca": 5, "cb": 0})));
+                sink(Case::with("sub", format!("0 {a} - 5 {b}"), serde_json::json!({"a": a, "b": b, "ca": 0, "cb": 5})));
+            }
+        }
+        // ... nor does a zero that is computed
+        for a in s.iter().take(48) {
+            for b in s.iter().take(48) {
+                sink(Case::with("add", format!("5 {a} + (3 {b} - 3 {b})"), serde_json::json!({"a": a, "b": b, "ca": 5, "cb": 0})));
+                sink(Case::with("sub", format!("(2 {a} - 2 {a}) - 4 {b}"), serde_json::json!({"a": a, "b": b, "ca": 0, "cb": 4})));
             }
         }
         for q in &s {
@@ -182,9 +192,10 @@ impl Prop for C02 {
                     Ok(si) => si,
                     Err(e) => return fw::fail("unit-table", format!("{q}: {e}")),
                 };
+                let coef = |k: &str, d: i64| int(case.data.get(k).and_then(|v| v.as_i64()).unwrap_or(d));
                 let want = match op {
-                    "add" => &ma.scale + &mb.scale,
-                    "sub" => int(3) * &ma.scale - &mb.scale,
+                    "add" => coef("ca", 1) * &ma.scale + coef("cb", 1) * &mb.scale,
+                    "sub" => coef("ca", 3) * &ma.scale - coef("cb", 1) * &mb.scale,
                     _ => ma.scale.clone(),
                 };
                 if si.dim != ma.dim || si.value != want {
